@@ -187,6 +187,7 @@ func runPrograms(args []string) int {
 	conc := fs.Int("conc", 1, "programs executed concurrently")
 	events := fs.String("events", "", "write the FID table event log here (ndjson)")
 	npevents := fs.String("npevents", "", "write the event log of the global named-pipe registry (names a, b, c) here (ndjson)")
+	lcevents := fs.String("lcevents", "", "write the log of the scheduler / process life-cycle gates here (ndjson)")
 	fs.Parse(args)
 	cases, err := readNDJSON[progCase](*in)
 	if err != nil {
@@ -269,6 +270,27 @@ func runPrograms(args []string) int {
 			}
 		}
 	}
+	if *lcevents != "" {
+		prev := hooks.Gate
+		hooks.Gate = func(obj any, point string) {
+			lcGate(obj, point)
+			if prev != nil {
+				prev(obj, point)
+			}
+		}
+		defer func() {
+			time.Sleep(200 * time.Millisecond) // the deregistration goroutines of the last program
+			w, err := newNDWriter(*lcevents)
+			if err == nil {
+				lcLog.Lock()
+				for _, e := range lcLog.evs {
+					w.Write(e)
+				}
+				lcLog.Unlock()
+				w.Close()
+			}
+		}()
+	}
 	verifhook.Install(hooks)
 	defer func() {
 		if *events != "" {
@@ -325,7 +347,13 @@ func runPrograms(args []string) int {
 		}
 		res := progResult{ID: c.ID, Status: "done"}
 		for k := 0; k < n; k++ {
+			if *lcevents != "" {
+				lcMark("begin", c.ID)
+			}
 			r := runOneProgram(c.Src, to, c.Fids)
+			if *lcevents != "" {
+				lcMark("end", c.ID)
+			}
 			res.Runs = append(res.Runs, r)
 			if r.Hung {
 				// the interpreter is wedged: report and let the driver restart us for the rest
